@@ -99,4 +99,6 @@ def run(model, tier):
     res.extra['per_class'] = per_class
     from . import c08_ehep
     c08_ehep.boundary_tests(model, res)      # EHEP: the region-boundary test compares dimensionless distances
+    from . import c08_riemann2d
+    c08_riemann2d.helpers(model, res)        # 2D Riemann: pressure grids and guesses scale with the state
     return res
